@@ -69,10 +69,10 @@ func TestC03(t *testing.T) {
 	for name, script := range run.CorpusScripts() {
 		psx.Replay(run, model, "corpus/"+name, script)
 	}
-	n := run.Scale(80, 1500)
+	n := run.Scale(800, 8000)
 	for i := 0; i < n && run.Findings() < 10; i++ {
 		rnd := hx.NewRand(run.Seed, "C03", i)
-		o := psx.Opts{Steps: rnd.Range(20, 45), Forks: 0, Shutdown: i%5 != 4, CommitForks: true, Crashes: i%5 == 4, Faults: i%4 == 0}
+		o := psx.Opts{Steps: rnd.Range(20, 60), Forks: 0, Shutdown: i%5 != 4, CommitForks: true, Crashes: i%5 == 4, Faults: i%4 == 0}
 		name := fmt.Sprintf("seed%d/case%d", run.Seed, i)
 		handle(run, model, name, psx.RunCase(run, model, name, rnd, o))
 	}
